@@ -318,6 +318,254 @@ theorem call_refines_bind (ll : LL) (g : Good ll) (hsplit : ll.rest = none ∨ l
     | some r => exact call_refines_bind_rest ll g r hr hk args
 
 
+/-! ### `&rest` together with `&key`: the listed deviation, as a theorem about the code -/
+
+def isKnownKw (ll : LL) : Obj → Bool
+  | .kw k => knownKey ll k
+  | _ => false
+
+/-- what slip does with `&rest r &key …` (findings/C04.json `lambda shape=rest+key
+    aspect=rest-split-at-first-known-key`, pinned by test/dynamic_test.go): the arguments after the
+    positional parameters are cut in front of the first keyword — at any position — that names a key
+    parameter; `r` gets the part before the cut, the part from the cut on is the key tail. -/
+def splitBind (ll : LL) (r : String) (args : List Obj) : Except BindErr (List (String × Obj)) :=
+  if args.length < ll.req.length then .error .tooFew
+  else
+    match keyPairs ((args.drop ll.npos).dropWhile (fun a => !isKnownKw ll a)) with
+    | .error e => .error e
+    | .ok ps =>
+      .ok (ll.req.zip args ++ bindOpt ll.opt (args.drop ll.req.length)
+            ++ [(r, Obj.ofList ((args.drop ll.npos).takeWhile (fun a => !isKnownKw ll a)))]
+            ++ ll.keys.map (bindKey ps) ++ bindAux ll.aux)
+
+theorem takeWhile_congr_mem {α} (p q : α → Bool) (l : List α) (h : ∀ a ∈ l, p a = q a) :
+    l.takeWhile p = l.takeWhile q ∧ l.dropWhile p = l.dropWhile q := by
+  induction l with
+  | nil => exact ⟨rfl, rfl⟩
+  | cons a l ih =>
+    have ha := h a (by simp)
+    have := ih (fun b hb => h b (by simp [hb]))
+    simp only [List.takeWhile, List.dropWhile, ha]
+    cases q a <;> simp [this.1, this.2]
+
+theorem length_takeWhile_le_len {α} (p : α → Bool) (l : List α) : (l.takeWhile p).length ≤ l.length := by
+  induction l with
+  | nil => simp
+  | cons a l ih =>
+    simp only [List.takeWhile]
+    cases p a <;> simp <;> omega
+
+theorem dropWhile_eq_drop {α} (p : α → Bool) (l : List α) : l.dropWhile p = l.drop (l.takeWhile p).length := by
+  induction l with
+  | nil => rfl
+  | cons a l ih =>
+    simp only [List.takeWhile, List.dropWhile]
+    cases p a <;> simp [ih]
+
+theorem pass1_restStep (doc : List DocArg) (args : List Obj) (r : String) (ds : List DocArg) (st : St)
+    (hle : st.ai ≤ args.length) :
+    pass1 doc args (mk r :: ds) 2 st =
+      pass1 doc args ds (restLoop doc args r 2 (args.length + 1) st).2 (restLoop doc args r 2 (args.length + 1) st).1 := by
+  by_cases he : args.length ≤ st.ai
+  · rw [pass1_exhausted doc args _ 2 st he]
+    have hd : args.drop st.ai = [] := List.drop_eq_nil_of_le he
+    rw [restLoop_split doc args r 2 _ st (by omega) hle]
+    simp only [hd, List.takeWhile_nil, List.length_nil, Nat.add_zero, List.append_nil, if_true]
+    exact (pass1_exhausted doc args ds 2 _ he).symm
+  · simp [pass1, LambdaCall.loopExit, Cmp.eval, he, mk, la1_rest]
+
+/-- **call_rest_key_split** — for a lambda list with both `&rest` and `&key` the extracted
+    `Lambda.Call` computes exactly the listed split rule (`splitBind`), for every argument list
+    whose keywords are ordinary lower-case names. Together with the correspondence run (slip =
+    machine on every case inside this construct) this pins the known finding to one rule. -/
+theorem call_rest_key_split (ll : LL) (g : Good ll) (r : String) (hr : ll.rest = some r) (hk : ll.hasKey = true)
+    (args : List Obj) (hargs : ∀ k, Obj.kw k ∈ args → Plain k) :
+    Refines (call (docOf ll) args) (splitBind ll r args) := by
+  have d := distinct_of_nodup ll g.nodup
+  obtain ⟨ad, ds, hne⟩ : ∃ ad ds, (ll.keys.map pd ++ dAok ll) ++ dAux ll = ad :: ds := by
+    rcases g.keyNonEmpty hk with h | h
+    · cases hkk : ll.keys with
+      | nil => exact absurd hkk h
+      | cons p ps => exact ⟨pd p, ps.map pd ++ (dAok ll ++ dAux ll), by simp⟩
+    · cases hkk : ll.keys with
+      | nil => exact ⟨mk "&allow-other-keys", dAux ll, by simp [dAok, h]⟩
+      | cons p ps => exact ⟨pd p, ps.map pd ++ (dAok ll ++ dAux ll), by simp⟩
+  have hdR : dRest ll = mk "&rest" :: mk r :: mk "&key" :: ad :: ds := by
+    simp only [dRest, dKey, hr, hk, if_true, List.cons_append, List.nil_append, ← hne, List.append_assoc]
+  have hai := stP_ai ll args
+  -- the predicate of the loop is the predicate of the rule on the arguments of this call
+  have hpred : ∀ a ∈ args.drop ll.npos, (!stopAt (docOf ll) a) = (!isKnownKw ll a) := by
+    intro a ha
+    have hmem : a ∈ args := List.mem_of_mem_drop ha
+    cases a with
+    | kw k => simp only [stopAt, isKnownKw, isKeyParam_docOf ll g k (hargs k hmem)]
+    | nil => rfl
+    | int i => rfl
+    | sym x => rfl
+    | str x => rfl
+    | cons x y => rfl
+  have htw := takeWhile_congr_mem _ _ _ hpred
+  -- first pass
+  have hp1 := pass1_prefix (docOf ll) ll g args
+  rw [hdR, pass1_setMode _ _ _ _ 2 "&rest" _ (la1_restMarker _ (modeAfterOpt_01 ll)),
+    pass1_restStep _ _ _ _ _ (by rw [hai]; omega),
+    restLoop_split _ _ _ _ _ _ (by omega) (by rw [hai]; omega)] at hp1
+  simp only [hai, drop_min, (stP_rest ll args).1, (stP_rest ll args).2, List.nil_append, if_true, htw.1] at hp1
+  generalize hbefore : (args.drop ll.npos).takeWhile (fun a => !isKnownKw ll a) = before at hp1
+  have hafter : (args.drop ll.npos).dropWhile (fun a => !isKnownKw ll a)
+      = args.drop (min ll.npos args.length + before.length) := by
+    rw [dropWhile_eq_drop, hbefore, ← drop_min args ll.npos, List.drop_drop]
+  have hblen : min ll.npos args.length + before.length ≤ args.length := by
+    have : before.length ≤ (args.drop ll.npos).length := by
+      rw [← hbefore]; exact length_takeWhile_le_len _ _
+    rw [List.length_drop] at this
+    by_cases h : ll.npos ≤ args.length
+    · rw [Nat.min_eq_left h]; omega
+    · rw [Nat.min_eq_right (by omega)]; omega
+  -- the step at `&key`: the key loop, or nothing when the arguments are used up
+  have hkeystep : ∀ (m : Nat) (st : St), st.ai = min ll.npos args.length + before.length →
+      (m = 3 ∨ args.length ≤ st.ai) →
+      pass1 (docOf ll) args (mk "&key" :: ad :: ds) m st =
+        match klSpec (docOf ll) (args.drop st.ai) st with
+        | .ok st' => pass1 (docOf ll) args (ad :: ds) 3 st'
+        | .error e => .error e := by
+    intro m st hst hm
+    rcases hm with rfl | hex
+    · exact pass1_keys _ _ _ _ _ (by rw [hst]; exact hblen)
+    · rw [pass1_exhausted _ _ _ _ _ hex, List.drop_eq_nil_of_le hex]
+      simp only [klSpec]
+      rw [pass1_exhausted _ _ _ _ _ hex]
+  rw [hkeystep _ _ rfl (by
+    by_cases hall : before.length = (args.drop ll.npos).length
+    · right
+      rw [List.length_drop] at hall
+      simp only
+      by_cases h : ll.npos ≤ args.length
+      · rw [Nat.min_eq_left h]; omega
+      · rw [Nat.min_eq_right (by omega)]; omega
+    · left; simp only [hall, if_false])] at hp1
+  simp only at hp1
+  unfold call splitBind
+  simp only [requiredCount_docOf ll g, LambdaCall.tooFew, LambdaCall.tooMany, LambdaCall.restLet,
+    LambdaCall.startMode, LambdaCall.startAi, LambdaCall.pass2StartMode, Cmp.eval, hp1]
+  by_cases hfew : args.length < ll.req.length
+  · simp [hfew, Refines, ErrRel]
+  · simp only [hfew, decide_false, if_false, Bool.false_eq_true, hbefore, hafter]
+    cases hkp : keyPairs (args.drop (min ll.npos args.length + before.length)) with
+    | error e =>
+      obtain ⟨e', he', hkind⟩ := klSpec_err (docOf ll) _
+        ({ ai := min ll.npos args.length + before.length, vars := (stP ll args).vars, rest := before,
+           restSym := if before = [] then "" else r } : St) e hkp
+      simp only [he', Refines]
+      rcases keyPairs_err_kind _ e hkp with rfl | rfl <;> rcases hkind with rfl | rfl <;> trivial
+    | ok ps =>
+      have hflat := keyPairs_flatKV _ ps hkp
+      have hlen : min ll.npos args.length + before.length + 2 * ps.length = args.length := by
+        have := congrArg List.length hflat
+        rw [flatKV_length, List.length_drop] at this
+        omega
+      rw [hflat, klSpec_flat]
+      simp only [hlen]
+      rw [pass1_exhausted _ _ _ _ _ (by simp)]
+      simp only [Nat.lt_irrefl, gt_iff_lt, decide_false, Bool.false_eq_true, if_false, pass2_docOf ll g, Refines]
+      have hrr : ∀ a ∈ ll.req, a ≠ r := fun a ha e => d.req_rest a ha (by rw [hr, e])
+      have hro : ∀ p ∈ ll.opt, p.name ≠ r := fun p hp e => d.opt_rest p hp (by rw [hr, e])
+      have hrk : ∀ p ∈ ll.keys, p.name ≠ r := fun p hp e => d.rest_keys p hp (by rw [hr, e])
+      have hra : ∀ p ∈ ll.aux, p.name ≠ r := fun p hp e => d.rest_aux p hp (by rw [hr, e])
+      have hreqk : ∀ p ∈ ll.keys, ∀ a ∈ ll.req, a ≠ p.name := fun p hp a ha => d.req_keys a ha p hp
+      have hPr : Plain r := g.rest r hr
+      have hunbR : getVar (bindPairs (docOf ll) ps (stP ll args).vars) r = none := by
+        rw [getVar_bindPairs, stP_other ll args r hrr hro]
+        simp only
+        rw [isKeyParam_docOf ll g r hPr]
+        have : knownKey ll r = false := by
+          simp only [knownKey, List.any_eq_false, decide_eq_true_eq]
+          exact fun q hq => hrk q hq
+        simp [this]
+      -- the bindings after the first pass, with or without the &rest variable
+      generalize hv1 : (if decide (0 < before.length) = true then
+          letVar (bindPairs (docOf ll) ps (stP ll args).vars) (if before = [] then "" else r) (Obj.ofList before)
+        else bindPairs (docOf ll) ps (stP ll args).vars) = vars1
+      have hother : ∀ x, x ≠ r → getVar vars1 x = getVar (bindPairs (docOf ll) ps (stP ll args).vars) x := by
+        intro x hx
+        rw [← hv1]
+        by_cases hb : 0 < before.length
+        · have hne : before ≠ [] := by intro e; simp [e] at hb
+          simp [hb, hne, Ne.symm hx]
+        · simp [hb]
+      intro nv hnv
+      rcases List.mem_append.mp hnv with h | h
+      · rcases List.mem_append.mp h with h | h
+        · rcases List.mem_append.mp h with h | h
+          · refine front_values ll g d args (by omega) _ ?_ ?_ nv h
+            · intro x a hx
+              have hxr : x ≠ r := by
+                intro e; subst e; rw [stP_other ll args _ hrr hro] at hx; cases hx
+              rw [hother x hxr, getVar_bindPairs, hx]
+            · intro p hp hx
+              rw [hother _ (hro p hp), getVar_bindPairs, hx]
+              simp only
+              rw [isKeyParam_docOf ll g p.name (g.opt p hp)]
+              have : knownKey ll p.name = false := by
+                simp only [knownKey, List.any_eq_false, decide_eq_true_eq]
+                intro q hq e
+                exact d.opt_keys p hp q hq e.symm
+              simp [this]
+          · simp only [List.mem_singleton] at h
+            subst h
+            by_cases hb : 0 < before.length
+            · have hne : before ≠ [] := by intro e; simp [e] at hb
+              refine final_bound ll _ _ _ hra ?_
+              rw [← hv1]
+              simp [hb, hne]
+            · have hnil : before = [] := by
+                cases before with
+                | nil => rfl
+                | cons a l => simp at hb
+              have hf : (ll.opt.map pd ++ (restD ll ++ keysD ll)).find? (fun q => q.name = r) = some (mk r) := by
+                rw [find_skip _ _ r (by intro q hq; obtain ⟨p, hp, rfl⟩ := List.mem_map.mp hq; exact hro p hp)]
+                simp [restD, hr, List.find?, mk]
+              have hvr : getVar vars1 r = none := by
+                rw [← hv1]; simp only [hb, if_false]; exact hunbR
+              have := final_default ll vars1 r (mk r) hra hvr hf
+              simp only [hnil, Obj.ofList]
+              exact this
+        · simp only [List.mem_map] at h
+          obtain ⟨p, hp, rfl⟩ := h
+          have haux : ∀ q ∈ ll.aux, q.name ≠ p.name := fun q hq e => d.keys_aux p hp q hq e.symm
+          have hunb : getVar (stP ll args).vars p.name = none :=
+            stP_other ll args p.name (hreqk p hp) (fun q hq e => d.opt_keys q hq p hp e)
+          have hknown : knownKey ll p.name = true := by
+            simp only [knownKey, List.any_eq_true, decide_eq_true_eq]
+            exact ⟨p, hp, rfl⟩
+          have hv : getVar vars1 p.name = firstVal p.name ps := by
+            rw [hother _ (hrk p hp), getVar_bindPairs, hunb]
+            simp [isKeyParam_docOf ll g p.name (g.keys p hp), hknown]
+          unfold bindKey
+          cases hfv : firstVal p.name ps with
+          | some v =>
+            simp only
+            exact final_bound ll _ _ _ haux (by rw [hv, hfv])
+          | none =>
+            simp only
+            have hf : (ll.opt.map pd ++ (restD ll ++ keysD ll)).find? (fun q => q.name = p.name) = some (pd p) := by
+              rw [find_skip _ _ p.name (by
+                intro q hq; obtain ⟨o, ho, rfl⟩ := List.mem_map.mp hq; exact d.opt_keys o ho p hp)]
+              simp only [restD, hr]
+              rw [find_skip _ _ p.name (by
+                intro q hq; simp only [List.mem_singleton] at hq; subst hq; exact (hrk p hp).symm)]
+              simp only [keysD, hk, if_true]
+              exact find_here (ll.keys.map pd) (dAok ll) (by rw [map_name_pd]; exact d.keys) (pd p)
+                (List.mem_map.mpr ⟨p, hp, rfl⟩)
+            exact final_default ll _ p.name (pd p) haux (by rw [hv, hfv]) hf
+      · simp only [bindAux, List.mem_map] at h
+        obtain ⟨p, hp, rfl⟩ := h
+        exact final_aux ll d _ p hp
+
+example : call (docOf { req := ["a"], rest := some "r", hasKey := true, keys := [{ name := "k" }] })
+            [.int 1, .int 2, .kw "zz", .kw "k", .int 3, .kw "k", .int 4]
+          = .ok [("r", Obj.ofList [.int 2, .kw "zz"]), ("k", .int 3), ("a", .int 1)] := by decide
+
 /-- the hypotheses are satisfiable by an ordinary lambda list (every kind but `&rest`) -/
 example : Good { req := ["a"], opt := [{ name := "b", default := .int 5 }], hasKey := true,
                  keys := [{ name := "k" }], aux := [{ name := "x", default := .int 9 }] } := by
